@@ -22,8 +22,28 @@ pub struct OptSet {
     pub reuse: bool,
 }
 
+/// Capacity in entries of the block cache / table cache of databases opened by `to_options`
+/// (0 = raindb's defaults).
+pub static CACHE_CAP: std::sync::atomic::AtomicUsize = std::sync::atomic::AtomicUsize::new(0);
+
+pub fn set_cache_cap(n: usize) {
+    let n = if n == 1 { 2 } else { n };
+    CACHE_CAP.store(n, Ordering::SeqCst);
+    raindb::verif::set_table_cache_capacity(n);
+}
+
 impl OptSet {
     pub fn to_options(&self, root: &str, fs: &SimFs) -> DbOptions {
+        let cap = CACHE_CAP.load(Ordering::SeqCst);
+        if cap > 0 {
+            let mut o = self.to_options_default_caches(root, fs);
+            o.block_cache = raindb::verif::new_block_cache(cap);
+            return o;
+        }
+        self.to_options_default_caches(root, fs)
+    }
+
+    fn to_options_default_caches(&self, root: &str, fs: &SimFs) -> DbOptions {
         DbOptions {
             db_path: root.to_string(),
             max_memtable_size: self.memtable,
